@@ -63,6 +63,8 @@ module Nat :
   val min : nat -> nat -> nat
 
   val even : nat -> bool
+
+  val odd : nat -> bool
  end
 
 module Pos :
@@ -1123,6 +1125,37 @@ val u64M1 : z
 val call_ok : binstr -> z -> kins list -> bool
 
 val br_ok : binstr -> kins list -> bool
+
+type mins =
+| MAddRbp of z
+| MLeaRaxRbp of z
+| MSubRaxBase
+| MSarRax of z
+| MCmpRaxSize
+| MJb
+| MStoreOff
+| MPush of z
+| MPop of z
+| MSubRsp
+| MAddRsp
+| MMovRR of z * z
+| MMovI of z * z
+| MCall of z
+| MLoadRbpBase
+| MLoadRaxOff
+| MLeaRbpIdx of z * z
+
+val mins_eqb : mins -> mins -> bool
+
+val code_eqb : mins list -> mins list -> bool
+
+val saved_regs : z -> z list
+
+val mov_template : z -> z -> z -> z -> z -> z -> mins list
+
+val find_fn : mins list -> z
+
+val mov_ok : z -> binstr -> z -> z -> z -> mins list -> bool
 
 type kind =
 | KPrintIr
